@@ -1,11 +1,11 @@
 HARNESSES = {
-    'EncoderReset': dict(split={'mode': 3, 'call': 25}, quick=dict(params={'K': 1}), thorough=dict(params={'K': 2})),
+    'EncoderReset': dict(split={'mode': 3, 'call': 25, 'history': 2}, quick=dict(params={'K': 1}), thorough=dict(params={'K': 2})),
     'BytesTwice': dict(split={'mode': 3}),
     'RendererReset': dict(split={'stale': 3, 'nstops': 2, 'history': 2}),
 }
 
 BOUNDS = {
-    'EncoderReset': 'arbitrary dirty Encoder state (mode, error, pending verb, selectors, LOD, both resolution flags, buffer contents), Reset with a symbolic palette entry, then K arbitrary calls (quick 1, thorough 2)',
+    'EncoderReset': 'optionally a real earlier use (custom metadata, selector/register traffic, a path abandoned mid-run), then arbitrary dirty Encoder state (mode, error, pending verb, selectors, LOD, both resolution flags, buffer contents), Reset with a symbolic palette entry, then K arbitrary calls (quick 1, thorough 2)',
     'RendererReset': 'optionally a real earlier use (SetLOD with arbitrary bounds, register writes, a gradient paint, a path abandoned mid-way), then arbitrary dirty Renderer state (all registers, palette, selectors, LOD, smooth memory, disabled flag, viewBox), Reset, then a well-formed program using register reads and smooth verbs',
 }
 OUTSIDE = 'programs longer than K after Reset as a whole (field equality right after Reset is the inductive step)'
